@@ -135,10 +135,25 @@ def switch_vals(body, a, s):
 
 
 def guards(s, blk, transitive=True):
-    """conditions controlling execution of block blk: list of dict(blk, cond, vals, all)"""
+    """conditions controlling execution of block blk: list of dict(blk, cond, vals, all).
+    transitive=True: the NECESSARY branch outcomes -- switch edges (a -> x) such that blk becomes
+    unreachable from the entry when that edge is removed (every path to blk takes that outcome).
+    transitive=False: immediate control dependence only."""
     cfg = s.cfg
-    deps = cfg.control_deps_transitive(blk) if transitive else cfg.control_deps()[blk]
     out = []
+    if not transitive:
+        deps = cfg.control_deps()[blk]
+    else:
+        deps = set()
+        for a in cfg.order:
+            t = s.body.blocks[a]['term']
+            if t['k'] != 'switch' or a == blk and False:
+                continue
+            if not cfg.dominates(a, blk) or a == blk:
+                continue
+            for x in set(cfg.succ[a]):
+                if x in cfg.nodes and not cfg.can_reach(0, blk, removed_edges=[(a, x)]):
+                    deps.add((a, x))
     for (a, succ) in sorted(deps):
         t = s.body.blocks[a]['term']
         if t['k'] != 'switch':
@@ -336,3 +351,43 @@ def paths_deep(e, limit=5000):
 
     rec(e, ())
     return out
+
+
+def dnf(s, blk, within=None, limit=512):
+    """Reaching condition of block blk as a disjunction of conjunctions of branch outcomes, from the
+    control-dependence graph: blk is reached iff for some (a, x) in CD(blk): a is reached and edge
+    a -> x is taken. Returns a list of disjuncts, each a list of dict(blk, cond, vals, all, truth).
+    `within`: only expand branch blocks inside this set (e.g. a loop body). Cycles are cut."""
+    cfg = s.cfg
+    cd = cfg.control_deps()
+    memo = {}
+
+    def lit(a, x):
+        t = s.body.blocks[a]['term']
+        if t['k'] != 'switch':
+            return None
+        vals = switch_vals(s.body, a, x)
+        allv = [v for v, _ in t['targets']] + ['otherwise']
+        g = dict(blk=a, cond=s.switches.get(a), vals=vals, all=allv, line=t['line'])
+        g['truth'] = truth(g)
+        return g
+
+    def rec(b, stack):
+        if b in memo:
+            return memo[b]
+        deps = [(a, x) for (a, x) in sorted(cd.get(b, ())) if a != b and a not in stack and (within is None or a in within)]
+        deps = [(a, x) for (a, x) in deps if s.body.blocks[a]['term']['k'] == 'switch']
+        if not deps:
+            return [[]]
+        out = []
+        for (a, x) in deps:
+            l = lit(a, x)
+            for conj in rec(a, stack | {b}):
+                out.append(conj + [l])
+                if len(out) > limit:
+                    return out
+        if not stack:
+            memo[b] = out
+        return out
+
+    return rec(blk, frozenset())
